@@ -879,6 +879,59 @@ fn extract_text(full: &str, ctx: Ctx) -> String {
     inner.strip_suffix(post).unwrap_or(inner).trim().to_string()
 }
 
+/// An expression-or-type position that reads as both is answered `Either` by the parser; against an original that
+/// says `Expression(e)` / `Type(t)` only that half is compared.
+fn align(orig: &SExp, new: &SExp) -> SExp {
+    match (orig, new) {
+        (SExp::List(o), SExp::List(n)) => {
+            if orig.head() == Some("E") && new.head() == Some("B") && o.len() == 2 && n.len() == 3 {
+                return SExp::List(vec![SExp::atom("E"), align(&o[1], &n[1])]);
+            }
+            if orig.head() == Some("T") && new.head() == Some("B") && o.len() == 2 && n.len() == 3 {
+                return SExp::List(vec![SExp::atom("T"), align(&o[1], &n[2])]);
+            }
+            if o.len() == n.len() {
+                return SExp::List(o.iter().zip(n.iter()).map(|(a, b)| align(a, b)).collect());
+            }
+            new.clone()
+        }
+        _ => new.clone(),
+    }
+}
+
+/// where two trees first differ: `<original node> -> <re-read node>`
+fn diff_sig(orig: &SExp, new: &SExp) -> String {
+    fn tag(s: &SExp) -> String {
+        match s {
+            SExp::Atom(a) => a.clone(),
+            SExp::List(l) => {
+                let h = s.head().unwrap_or("list");
+                if h == "lit" || h == "un" || h == "bin" {
+                    format!("{}:{}", h, l.get(1).and_then(|x| x.as_atom()).unwrap_or("?"))
+                } else {
+                    h.to_string()
+                }
+            }
+        }
+    }
+    match (orig, new) {
+        (SExp::List(o), SExp::List(n)) if tag(orig) == tag(new) && o.len() == n.len() => {
+            for (a, b) in o.iter().zip(n.iter()) {
+                if a != b {
+                    return diff_sig(a, b);
+                }
+            }
+            "same".into()
+        }
+        (SExp::List(_), SExp::List(_)) if tag(orig) == tag(new) => format!("{}-length", tag(orig)),
+        (SExp::Atom(a), SExp::Atom(b)) => {
+            let num = |x: &str| x.chars().all(|c| c.is_ascii_hexdigit() || c == 'x' || c == '-');
+            if num(a) && num(b) { "value".into() } else { format!("{}->{}", a, b) }
+        }
+        _ => format!("{}->{}", tag(orig), tag(new)),
+    }
+}
+
 struct Outcome {
     obs: String,
     oracle: String,
@@ -956,12 +1009,13 @@ fn run_tree(ctx: Ctx, tree: &SExp) -> Outcome {
         }
     };
     let e2r = resolve(&e2, &types);
-    let back = ser_expr(&e2r).show();
+    let back_s = align(&ser_expr(&e), &ser_expr(&e2r));
+    let back = back_s.show();
     let obs = format!("{} ==> {}", etext, back);
     if back != original {
         return Outcome {
             obs,
-            oracle: "FAIL:tree differs after print+parse".into(),
+            oracle: format!("FAIL:tree differs after print+parse [{}]", diff_sig(&ser_expr(&e), &back_s)),
         };
     }
     // second generation text
@@ -1064,7 +1118,8 @@ fn fail_kind(oracle: &str) -> String {
     } else if d.starts_with("printed text reads back as another construct") {
         "other-construct".into()
     } else if d.starts_with("tree differs") {
-        "tree-differs".into()
+        let sig = d.split('[').nth(1).and_then(|x| x.split(']').next()).unwrap_or("");
+        format!("tree-differs[{}]", sig)
     } else if d.starts_with("second print") {
         "second-print".into()
     } else {
@@ -1113,6 +1168,12 @@ fn shrink(ctx: Ctx, tree: &SExp, kind: &str) -> (Ctx, SExp) {
                 cands.push(ida.clone());
             }
             if node.head() == Some("lit") {
+                for c in ["(lit i 1)", "(lit l -1)"] {
+                    let c = parse_sexp(c).unwrap();
+                    if c != node {
+                        cands.push(c);
+                    }
+                }
                 let k = node.args().first().and_then(|x| x.as_atom()).unwrap_or("");
                 for c in canonical_literals(k) {
                     let c = parse_sexp(c).unwrap();
@@ -1133,7 +1194,13 @@ fn shrink(ctx: Ctx, tree: &SExp, kind: &str) -> (Ctx, SExp) {
                     0
                 } else if x.head() == Some("lit") {
                     let k = x.args().first().and_then(|y| y.as_atom()).unwrap_or("");
-                    1 + canonical_literals(k).iter().position(|c| *c == sh).unwrap_or(50)
+                    if sh == "(lit i 1)" {
+                        1
+                    } else if sh == "(lit l -1)" {
+                        2
+                    } else {
+                        3 + canonical_literals(k).iter().position(|c| *c == sh).unwrap_or(50)
+                    }
                 } else {
                     100
                 };
@@ -1196,6 +1263,37 @@ fn shrink(ctx: Ctx, tree: &SExp, kind: &str) -> (Ctx, SExp) {
                     }
                 }
             }
+        }
+    }
+    // drop template arguments
+    loop {
+        let mut paths = Vec::new();
+        expr_paths(&tree, &mut Vec::new(), &mut paths);
+        let mut changed = false;
+        for p in &paths {
+            let node = at(&tree, p).clone();
+            if let (Some("call"), SExp::List(l)) = (node.head(), &node) {
+                if let Some(SExp::List(targs)) = l.get(2) {
+                    for i in 0..targs.len() {
+                        let mut t2 = targs.clone();
+                        t2.remove(i);
+                        let mut v = l.clone();
+                        v[2] = SExp::List(t2);
+                        let cand = replace_at(&tree, p, &SExp::List(v));
+                        if budget > 0 && still(ctx, &cand, &mut budget) {
+                            tree = cand;
+                            changed = true;
+                            break;
+                        }
+                    }
+                }
+            }
+            if changed {
+                break;
+            }
+        }
+        if !changed {
+            break;
         }
     }
     // canonical type name
@@ -1447,7 +1545,13 @@ impl Gen {
                     ],
                 )
             }
-            _ => SExp::list("E", vec![self.expr(d.min(2), false)]),
+            _ => {
+                // operators containing `<`, `>` or `,` inside template arguments are a known defect class (corpus)
+                let e = self.expr(d.min(2), false);
+                let sh = e.show();
+                let risky = ["Less", "Greater", "Shift", "Sequence", "tern"].iter().any(|w| sh.contains(w));
+                SExp::list("E", vec![if risky { self.leaf() } else { e }])
+            }
         }
     }
 
